@@ -9,7 +9,7 @@ import warnings
 
 from sim import kernel, scenes
 from sim.digest import chunk_parts, diff_parts
-from sim.minimise import ddmin
+from sim.minimise import shrink_history
 from sim.models import StageModel, STAGE_OPS, reachable_stage_pairs
 
 PROP = 'C14'
@@ -121,27 +121,16 @@ def _signature(vio):
             'changed': sorted(c for c in vio['changed'])}
 
 
-def _package(scene, ops, vio):
+def _package(scene, ops, vio, prelude=()):
     return {'clause': vio['clause'], 'signature': _signature(vio),
-            'case': {'scene': scene, 'ops': list(ops)},
+            'case': {'scene': scene, 'ops': list(ops), 'prelude': [list(h) for h in prelude]},
             'observed': f'history {" ".join(ops)}: op #{vio["pos"]} {vio["op"]} in model state '
                         f's,g,l,iso,nc={vio["state"]}: {vio["clause"]}; differing components '
                         f'{vio["changed"]} {vio.get("detail", "")}'}
 
 
-def minimise(scene, ops, vio, traj):
-    ops = list(ops[:vio['pos'] + 1])
-    want = (vio['clause'], vio['op'])
-
-    def fails(sub):
-        v, _, _ = run_history(scene, sub, traj)
-        return v is not None and (v['clause'], v['op']) == want
-    small = ddmin(ops, fails, max_runs=80)
-    v, _, _ = run_history(scene, small, traj)
-    if v is None:
-        small = ops
-        v, _, _ = run_history(scene, small, traj)
-    return small, v
+def shrink(vio, evaluate):
+    return shrink_history(vio, evaluate, max_runs=80)
 
 
 def replay(case):
@@ -150,10 +139,12 @@ def replay(case):
         traj = trajectory(case['scene'])
         if traj is None:
             return None
+        for ops in case.get('prelude', []):      # earlier histories of the same process
+            run_history(case['scene'], ops, traj)
         vio, _, _ = run_history(case['scene'], case['ops'], traj)
     if vio is None:
         return None
-    return _package(case['scene'], case['ops'], vio)
+    return _package(case['scene'], case['ops'], vio, case.get('prelude', []))
 
 
 # ------------------------------------------------------------------------------------------
@@ -252,6 +243,7 @@ def execute(run):
         shash = kernel.sha(scene['rows'])
         out['log'].append(kernel.sha(repr(traj)))
         reported = set()
+        done_hists = []
         for ops in hists:
             cover = set()
             vio, steps, refused = run_history(scene, ops, traj, cover)
@@ -274,11 +266,11 @@ def execute(run):
                                        'refused_calls': refused})
             if vio is not None:
                 key = (vio['clause'], vio['op'], tuple(sorted(vio['changed'])))
-                if key in reported:
-                    continue
-                reported.add(key)
-                small, v2 = minimise(scene, ops, vio, traj)
-                out['violations'].append(_package(scene, small, v2))
+                if key not in reported:
+                    reported.add(key)
+                    out['violations'].append(_package(scene, ops[:vio['pos'] + 1], vio,
+                                                      done_hists))
+            done_hists.append(ops)
     return out
 
 
